@@ -103,12 +103,44 @@ def corrupt(rng, xml_text):
     return kind, must, ET.tostring(root).decode()
 
 
+def reorder(rng, xml_text):
+    """shuffle the SequenceContainer elements (forward base / nesting references) and sometimes nest a base container in a sibling"""
+    import lxml.etree as ET
+    root = ET.fromstring(xml_text.encode())
+    cset = root.find(q("TelemetryMetaData")).find(q("ContainerSet"))
+    conts = list(cset)
+    if rng.random() < 0.5:
+        # make some container that is used as a base also a nested entry of an unrelated leaf container
+        bases = {b.get("containerRef") for b in cset.iter(q("BaseContainer"))}
+        leaves = [c for c in conts if c.get("name") not in bases and c.get("name") != "CCSDSPacket"]
+        inner = [c for c in conts if c.get("name") in bases and c.get("name") != "CCSDSPacket"]
+        if leaves and inner:
+            leaf, b = rng.choice(leaves), rng.choice(inner)
+            # only when it does not create a cycle: the leaf must not (transitively) inherit from b
+            anc, cur = set(), leaf
+            while cur is not None and cur.find(q("BaseContainer")) is not None:
+                nm = cur.find(q("BaseContainer")).get("containerRef")
+                anc.add(nm)
+                cur = next((c for c in conts if c.get("name") == nm), None)
+            if b.get("name") not in anc:
+                e = ET.SubElement(leaf.find(q("EntryList")), q("ContainerRefEntry"))
+                e.set("containerRef", b.get("name"))
+    for c in conts:
+        cset.remove(c)
+    rng.shuffle(conts)
+    for c in conts:
+        cset.append(c)
+    return ET.tostring(root).decode()
+
+
 def gen(rng, tier):
     cases = []
     n = 25 if tier == "quick" else 600
-    for _ in range(n):
+    for i in range(n):
         doc = xmlgen.to_xml_loadable(defgen.rnd_definition(rng))
         xml = xmlgen.document_xml(doc, NS)
+        if i % 2:
+            xml = reorder(rng, xml)
         cases.append({"xml": xml, "kind": "valid", "must_reject": False})
         for _j in range(3 if tier == "quick" else 6):
             c = corrupt(rng, xml)
